@@ -5,6 +5,8 @@ import re
 from .domain import NONE_STR, is_code, param_tags
 from .runner import Disc
 
+import os as _os
+STRICT_CODE = not _os.environ.get('VERIF_LAX_CODE')  # a code expression that comes back as plain text is no longer code
 NONE_ALIASES = (None, "None", NONE_STR, "```None```", "(None)")
 
 _ANNOUNCE = re.compile(r"(?is)(defaults\s+to\s|default\s+value\s+is\s|default:)")
@@ -89,6 +91,8 @@ def default_equal(exp, got, as_code=False):
     if is_code(exp) or (isinstance(got, str) and is_code(got)):
         if not isinstance(got, str) or not isinstance(exp, str):
             return "type:%s->%s" % ("code" if is_code(exp) else type(exp).__name__, type(got).__name__)
+        if STRICT_CODE and is_code(exp) != is_code(got):
+            return "type:%s->%s" % ("code" if is_code(exp) else "str", "code" if is_code(got) else "str")
         try:
             return None if ast_dump_expr(strip_code(exp)) == ast_dump_expr(strip_code(got)) else "value:code"
         except SyntaxError:
